@@ -330,6 +330,7 @@ func (it *Interp) newObject(n int, tag string) *Object {
 
 func (it *Interp) newZeroObject(t types.Type, count int, tag string) *Object {
 	ec := it.ncells(t)
+	it.steps += ec * count / 16 // large allocations count towards the instruction budget
 	o := it.newObject(ec*count, tag)
 	if ec*count == 0 {
 		return o
